@@ -361,7 +361,7 @@ static void emitCall(FnCtx &X, const CallBase &CB, std::ostream &os, const std::
     case Intrinsic::invariant_end: case Intrinsic::donothing: case Intrinsic::prefetch:
       return;
     case Intrinsic::memcpy: case Intrinsic::memcpy_inline:
-      if (auto *CN = dyn_cast<ConstantInt>(CB.getArgOperand(2))) if (CN->getZExtValue() <= 1024) {
+      if (auto *CN = dyn_cast<ConstantInt>(CB.getArgOperand(2))) if (CN->getZExtValue() <= 8192) {
         uint64_t n = CN->getZExtValue(), o = 0;
         os << "{ char* __d=" << arg(0) << "; char* __s=" << arg(1) << "; ";
         for (unsigned c : {8u, 4u, 2u, 1u}) while (n - o >= c) { os << "*(uint" << c * 8 << "_t*)(__d+" << o << ")=*(uint" << c * 8 << "_t*)(__s+" << o << "); "; o += c; }
@@ -371,7 +371,7 @@ static void emitCall(FnCtx &X, const CallBase &CB, std::ostream &os, const std::
     case Intrinsic::memmove:
       os << "__vf_memmove(" << arg(0) << "," << arg(1) << ",(uint64_t)" << arg(2) << ");"; return;
     case Intrinsic::memset:
-      if (auto *CN = dyn_cast<ConstantInt>(CB.getArgOperand(2))) if (CN->getZExtValue() <= 1024) {
+      if (auto *CN = dyn_cast<ConstantInt>(CB.getArgOperand(2))) if (CN->getZExtValue() <= 8192) {
         uint64_t n = CN->getZExtValue(), o = 0;
         os << "{ char* __d=" << arg(0) << "; uint64_t __c=0x0101010101010101ULL*(uint8_t)" << arg(1) << "; ";
         for (unsigned c : {8u, 4u, 2u, 1u}) while (n - o >= c) { os << "*(uint" << c * 8 << "_t*)(__d+" << o << ")=(uint" << c * 8 << "_t)__c; "; o += c; }
